@@ -27,8 +27,16 @@ def gen_api_case(tier, seed, k):
     pp, dp = rnd.choice(sf.PP), rnd.choice(sf.DP)
     L += ["set_param p0 0 %d" % pp, "set_param p0 2 %d" % dp, "set_param p0 7 %d" % rnd.choice([0, 1])]
     algo = rnd.choice(["opt_primal", "opt_dual"])
-    mode = rnd.choice(["limit", "limit", "optimal", "pivotin"])
-    if mode == "limit":
+    mode = rnd.choice(["limit", "limit", "optimal", "pivotin", "nobasis"])
+    if mode == "nobasis":
+        # queries in states without a loaded simplex basis: nothing solved yet, solved by the exact driver only, or a solve call
+        # that short-cut on the stored solution; they must refuse or answer exactly, never read a basis that is not there
+        L += ["set_param p0 5 3000"]
+        L += rnd.choice([["tableau p0", "tableau_direct p0"],
+                         ["solve_exact p0 %s - xy" % rnd.choice(["primal", "dual"]), "tableau p0", "tableau_direct p0"],
+                         ["%s p0" % algo, "opt_primal p0", "tableau p0", "tableau_direct p0"],
+                         ["%s p0" % algo, "copy p0 p1 cp", "tableau p1", "free p1", "tableau p0"]])
+    elif mode == "limit":
         lim = rnd.choice([1, 2, 3, 5, 8, 13, 21, 34, 55, 89])
         L += ["set_param p0 5 %d" % lim, "%s p0" % algo, "tableau_direct p0"]
         # continue the same run in a few more slices: the factorization keeps its update history across calls
